@@ -1408,3 +1408,59 @@ FUNCTIONS += [
         ret_rules=[(r'^agent\.trace_return\(func\(params\)\)$', 'acts ++ [Act.stmt "return agent.trace_return(func(params))"]')],
     ),
 ]
+
+# ----------------------------------------------------------------------------------------------
+# The thin layers between the public queries / the per-expectation handler and the functions translated above: each is
+# one delegation (under the lock where it is a public query).  `Tie/Delegates.lean` says what each passes on.
+def _deleg(name, cxx, file, header, sig, rules, **kw):
+    return dict(dict(name=name, cxx=cxx, file=file, module=''.join(w.capitalize() for w in name.split('_')), header=header, lean_sig=sig,
+                     expr_rules=rules, decl_ignore=LOCK_DECL, stmt_ignore=IGNORE_HOOK, no_respell=True), **kw)
+
+
+FUNCTIONS += [
+    _deleg('cm_is_satisfied', 'call_matcher::is_satisfied', MOCK,
+           r'is_satisfied\(\)\s*const\s*noexcept\s*override(?=\s*\{\s*auto lock)', '(handler_is_satisfied : Bool) : Bool',
+           [(r'^sequences->is_satisfied\(\)$', 'handler_is_satisfied')]),
+    _deleg('cm_is_saturated', 'call_matcher::is_saturated', MOCK,
+           r'is_saturated\(\)\s*const\s*noexcept\s*override(?=\s*\{\s*auto lock)', '(handler_is_saturated : Bool) : Bool',
+           [(r'^sequences->is_saturated\(\)$', 'handler_is_saturated')]),
+    _deleg('cm_sequence_cost', 'call_matcher::sequence_cost', MOCK,
+           r'sequence_cost\(\)\s*const\s*noexcept\s*override', '(handler_order : Nat) : Nat',
+           [(r'^sequences->order\(\)$', 'handler_order')]),
+    _deleg('sh_order', 'sequence_handler<N>::order', MOCK,
+           r'order\(\)\s*const\s*noexcept\s*override(?=\s*\{\s*return matchers)', '(matchers_order : Nat) : Nat',
+           [(r'^matchers\.order\(\)$', 'matchers_order')]),
+    _deleg('sh_validate', 'sequence_handler<N>::validate', MOCK,
+           r'validate\(\s*severity s,\s*char const \*match_name,\s*location loc\)\s*override', ': List String', [],
+           prologue=['let mut acts : List String := []'], epilogue='return acts',
+           stmt_rules=[(r'^matchers\.validate\(s, match_name, loc\)$', 'acts := acts ++ ["matchers.validate"]')]),
+    _deleg('sh_retire', 'sequence_handler<N>::retire', MOCK,
+           r'\n\s*retire\(\)\s*noexcept\s*override', ': List String', [],
+           prologue=['let mut acts : List String := []'], epilogue='return acts',
+           stmt_rules=[(r'^matchers\.retire\(\)$', 'acts := acts ++ ["matchers.retire"]')]),
+    _deleg('sh_retire_predecessors', 'sequence_handler<N>::retire_predecessors', MOCK,
+           r'\n\s*retire_predecessors\(\)\s*noexcept\s*override', ': List String', [],
+           prologue=['let mut acts : List String := []'], epilogue='return acts',
+           stmt_rules=[(r'^matchers\.retire_predecessors\(\)$', 'acts := acts ++ ["matchers.retire_predecessors"]')]),
+    _deleg('sm0_order', 'sequence_matchers<0>::order', MOCK,
+           r'struct sequence_matchers<0>\s*\{.*?order\(\)\s*const\s*noexcept', ': Nat', []),
+    _deleg('lm_is_satisfied', 'lifetime_monitor::is_satisfied', 'include/trompeloeil/lifetime.hpp',
+           r'bool is_satisfied\(\) const noexcept override', '(died : Bool) : Bool', [], vars={'died': 'died'}),
+    _deleg('lm_is_saturated', 'lifetime_monitor::is_saturated', 'include/trompeloeil/lifetime.hpp',
+           r'bool is_saturated\(\) const noexcept override', '(died : Bool) : Bool', [], vars={'died': 'died'}),
+    _deleg('seq_is_completed', 'sequence::is_completed', SEQ,
+           r'bool is_completed\(\) const(?=\s*\{\s*return obj)', '(obj_is_completed : Bool) : Bool',
+           [(r'^obj->is_completed\(\)$', 'obj_is_completed')]),
+    _deleg('condition_check', 'condition<Sig, Cond>::check', MOCK,
+           r'check\(\s*call_params_type_t<Sig> const & t\)\s*const\s*override', '(c_of_t : Bool) : Bool',
+           [(r'^c\(t\)$', 'c_of_t')]),
+    _deleg('get_min_calls', 'sequence_handler_base::get_min_calls', MOCK,
+           r'get_min_calls\(\)\s*const\s*noexcept', '(min_calls max_calls call_count : Nat) : Nat', [],
+           vars={'min_calls': 'min_calls', 'max_calls': 'max_calls', 'call_count': 'call_count'}),
+    _deleg('get_calls', 'sequence_handler_base::get_calls', MOCK,
+           r'get_calls\(\)\s*const\s*noexcept', '(min_calls max_calls call_count : Nat) : Nat', [],
+           vars={'min_calls': 'min_calls', 'max_calls': 'max_calls', 'call_count': 'call_count'}),
+    _deleg('sm_is_satisfied', 'sequence_matcher::is_satisfied', SEQ,
+           r'sequence_matcher::is_satisfied\(\)\s*const\s*noexcept', '(handler_is_satisfied : Bool) : Bool',
+           [(r'^sequence_handler\.is_satisfied\(\)$', 'handler_is_satisfied')]),
+]
